@@ -26,17 +26,19 @@ View == <<objs, files, last, ncreate>>
 
 Abs(x) == IF x < 0 THEN -x ELSE x
 All == Focus = "all"
+Der == Focus = "derive"      \* a small alphabet around replaced time axes and derived frames (C17), enumerated exhaustively
+AD == All \/ Der
 Ident(i, w) == 1000 * i + w                                  \* row i (1-based), world channel w
 
 NewFrame(F, T, asc, lo, t0, src) ==
-    [F |-> F, T |-> T, asc |-> asc, lo |-> lo, t0 |-> t0, src |-> src, wf |-> FALSE, tsoff |-> 0,
+    [F |-> F, T |-> T, asc |-> asc, lo |-> lo, t0 |-> t0, src |-> src, wf |-> FALSE, tsoff |-> 0, tsgap |-> 0,
      data |-> [i \in 1..T |-> [j \in 1..F |-> Ident(i, lo + j - 1)]]]
 
 (* round(n / 4) to the nearest integer, ties to even (numpy) *)
 RoundQ(n) == LET f == n \div 4  r == n % 4 IN
              IF r < 2 THEN f ELSE IF r > 2 THEN f + 1 ELSE IF f % 2 = 0 THEN f ELSE f + 1
 
-Proj(f) == [F |-> f.F, T |-> f.T, asc |-> f.asc, lo |-> f.lo, t0 |-> f.t0, src |-> f.src, data |-> f.data, tsoff |-> f.tsoff]
+Proj(f) == [F |-> f.F, T |-> f.T, asc |-> f.asc, lo |-> f.lo, t0 |-> f.t0, src |-> f.src, data |-> f.data, tsoff |-> f.tsoff, tsgap |-> f.tsgap]
 
 Active == Len(hist) < MaxOps
 Room == Len(objs) < MaxObjs
@@ -54,7 +56,7 @@ Create(F, T, asc, lo, route) ==
     /\ LogC([name |-> "Create", F |-> F, T |-> T, asc |-> asc, lo |-> lo, route |-> route], [st |-> "ok"])
 
 GetWaterfall(o) ==
-    /\ Active /\ o \in 1..Len(objs)
+    /\ ~Der /\ Active /\ o \in 1..Len(objs)
     /\ objs' = [objs EXCEPT ![o].wf = TRUE]
     /\ last' = [st |-> "ok"] /\ UNCHANGED files
     /\ Log([name |-> "GetWaterfall", o |-> o], [st |-> "ok"])
@@ -67,29 +69,32 @@ CopyOp(o) ==
 
 (* pickle round trip (save_pickle / load_pickle, pickle.dumps / loads): an equal, independent frame without Waterfall *)
 PickleOp(o) ==
-    /\ All /\ Active /\ Room /\ o \in 1..Len(objs)
+    /\ AD /\ Active /\ Room /\ o \in 1..Len(objs)
     /\ objs' = Append(objs, [objs[o] EXCEPT !.wf = FALSE])
     /\ last' = [st |-> "ok"] /\ UNCHANGED files
     /\ Log([name |-> "Pickle", o |-> o], [st |-> "ok"])
 
-(* the user (or Cadence.consolidate) replaces the time axis by one that starts tsoff rows later: part of the frame's state
-   that copies and pickles must carry; files do not store it and derived frames start afresh *)
-ShiftTs(o) ==
-    /\ All /\ Active /\ o \in 1..Len(objs) /\ objs[o].tsoff = 0
-    /\ objs' = [objs EXCEPT ![o].tsoff = 5]
+(* the user (or Cadence.consolidate) replaces the time axis: "shift": it starts tsoff rows later (absolute times);
+   "gap": it keeps its first value but rows after the first come tsgap rows later (a cadence with slew gaps, timed from
+   its own start).  Part of the frame's state that copies and pickles must carry; files do not store it, derived frames
+   start afresh, and de-drifting / integration go by row index, not by the time axis *)
+ShiftTs(o, kind) ==
+    /\ AD /\ Active /\ o \in 1..Len(objs)
+    /\ IF kind = "shift" THEN objs[o].tsoff = 0 /\ objs' = [objs EXCEPT ![o].tsoff = 5]
+                         ELSE objs[o].tsgap = 0 /\ objs[o].T >= 2 /\ objs' = [objs EXCEPT ![o].tsgap = 5]
     /\ last' = [st |-> "ok"] /\ UNCHANGED files
-    /\ Log([name |-> "ShiftTs", o |-> o], [st |-> "ok"])
+    /\ Log([name |-> "ShiftTs", o |-> o, kind |-> kind], [st |-> "ok"])
 
 (* change the data of one frame (to see that copies / derived frames hold their own data) *)
 Mutate(o) ==
-    /\ All /\ Active /\ o \in 1..Len(objs)
+    /\ AD /\ Active /\ o \in 1..Len(objs)
     /\ objs' = [objs EXCEPT ![o].data = [i \in 1..objs[o].T |-> [j \in 1..objs[o].F |-> objs[o].data[i][j] + 500000]]]
     /\ last' = [st |-> "ok"] /\ UNCHANGED files
     /\ Log([name |-> "Mutate", o |-> o], [st |-> "ok"])
 
 (* replace the pixel array by a new one of the same shape (frame.data = ..., zero_data + refill, load_npy) *)
 Rebind(o) ==
-    /\ Active /\ o \in 1..Len(objs) /\ \A i \in 1..objs[o].T, j \in 1..objs[o].F : objs[o].data[i][j] % 500000 < 250000
+    /\ ~Der /\ Active /\ o \in 1..Len(objs) /\ \A i \in 1..objs[o].T, j \in 1..objs[o].F : objs[o].data[i][j] % 500000 < 250000
     /\ objs' = [objs EXCEPT ![o].data = [i \in 1..objs[o].T |-> [j \in 1..objs[o].F |-> objs[o].data[i][j] + 250000]]]
     /\ last' = [st |-> "ok"] /\ UNCHANGED files
     /\ Log([name |-> "Rebind", o |-> o], [st |-> "ok"])
@@ -98,7 +103,7 @@ Rebind(o) ==
 Slice(o, l, r) ==
     /\ Active /\ Room /\ o \in 1..Len(objs) /\ 0 <= l /\ l < r /\ r <= objs[o].F
     /\ LET f == objs[o]
-           g == [f EXCEPT !.F = r - l, !.lo = f.lo + l, !.tsoff = 0,
+           g == [f EXCEPT !.F = r - l, !.lo = f.lo + l, !.tsoff = 0, !.tsgap = 0,
                           !.data = [i \in 1..f.T |-> [j \in 1..r - l |-> f.data[i][l + j]]]] IN
        objs' = Append(objs, g)
     /\ last' = [st |-> "ok"] /\ UNCHANGED files
@@ -108,13 +113,13 @@ Slice(o, l, r) ==
 MaxOffset(f, q) == RoundQ(Abs(q) * f.T)
 Offset(q, i) == RoundQ(Abs(q) * i)                            \* row i is 0-based
 Dedrift(o, q) ==
-    /\ All /\ Active /\ Room /\ o \in 1..Len(objs)
+    /\ AD /\ Active /\ Room /\ o \in 1..Len(objs)
     /\ LET f == objs[o]  m == MaxOffset(f, q)  a == [name |-> "Dedrift", o |-> o, q |-> q] IN
        IF m >= f.F
        THEN /\ objs' = objs /\ last' = [st |-> "ValueError"] /\ Log(a, [st |-> "ValueError"])
        ELSE LET W == f.F - m
                 start(i) == IF q >= 0 THEN Offset(q, i) ELSE f.F - Offset(q, i) - W
-                g == [f EXCEPT !.F = W, !.lo = IF q >= 0 THEN f.lo ELSE f.lo + m, !.tsoff = 0,
+                g == [f EXCEPT !.F = W, !.lo = IF q >= 0 THEN f.lo ELSE f.lo + m, !.tsoff = 0, !.tsgap = 0,
                                !.data = [i \in 1..f.T |-> [j \in 1..W |-> f.data[i][start(i - 1) + j]]]] IN
             /\ objs' = Append(objs, g) /\ last' = [st |-> "ok"] /\ Log(a, [st |-> "ok"])
     /\ UNCHANGED files
@@ -123,17 +128,18 @@ Dedrift(o, q) ==
 RECURSIVE SumSeq(_)
 SumSeq(s) == IF s = <<>> THEN 0 ELSE Head(s) + SumSeq(Tail(s))
 Integrate(o, axis) ==
-    /\ All /\ Active /\ o \in 1..Len(objs)
+    /\ AD /\ Active /\ o \in 1..Len(objs)
     /\ LET f == objs[o]
            sums == IF axis = "t" THEN [j \in 1..f.F |-> SumSeq([i \in 1..f.T |-> f.data[i][j]])]
                    ELSE [i \in 1..f.T |-> SumSeq(f.data[i])]
            r == [st |-> "ok", sums |-> sums, count |-> IF axis = "t" THEN f.T ELSE f.F,
-                 lo |-> f.lo, F |-> IF axis = "t" THEN f.F ELSE 1, T |-> IF axis = "t" THEN 1 ELSE f.T] IN
+                 lo |-> f.lo, F |-> IF axis = "t" THEN f.F ELSE 1, T |-> IF axis = "t" THEN 1 ELSE f.T,
+                 tsoff |-> f.tsoff, tsgap |-> f.tsgap] IN
        /\ last' = r /\ UNCHANGED <<objs, files>>
        /\ Log([name |-> "Integrate", o |-> o, axis |-> axis], r)
 
 Save(o, fmt) ==
-    /\ Active /\ o \in 1..Len(objs) /\ Len(files) < 2
+    /\ ~Der /\ Active /\ o \in 1..Len(objs) /\ Len(files) < 2
     /\ (fmt = "h5" => (objs[o].T >= 3 /\ objs[o].F >= 3))   \* blimpy's HDF5 reader needs >= 3 integrations and channels
     /\ files' = Append(files, [fmt |-> fmt, frame |-> Proj(objs[o])])
     /\ objs' = [objs EXCEPT ![o].wf = TRUE]                      \* saving attaches / refreshes the Waterfall
@@ -141,8 +147,8 @@ Save(o, fmt) ==
     /\ Log([name |-> "Save", o |-> o, fmt |-> fmt, file |-> Len(files) + 1], [st |-> "ok", file |-> Proj(objs[o])])
 
 Load(k) ==
-    /\ Active /\ Room /\ k \in 1..Len(files)
-    /\ objs' = Append(objs, [files[k].frame EXCEPT !.tsoff = 0] @@ [wf |-> TRUE])
+    /\ ~Der /\ Active /\ Room /\ k \in 1..Len(files)
+    /\ objs' = Append(objs, [files[k].frame EXCEPT !.tsoff = 0, !.tsgap = 0] @@ [wf |-> TRUE])
     /\ last' = [st |-> "ok"] /\ UNCHANGED files
     /\ Log([name |-> "Load", file |-> k], [st |-> "ok"])
 
@@ -157,9 +163,9 @@ LoadSub(k, l, r) ==
    the implementation reports it for such a selection (the file's); what matters afterwards is that saving and loading
    THIS frame is faithful *)
 LoadT(k, a, b) ==
-    /\ Active /\ Room /\ k \in 1..Len(files) /\ 0 <= a /\ a < b /\ b <= files[k].frame.T
+    /\ ~Der /\ Active /\ Room /\ k \in 1..Len(files) /\ 0 <= a /\ a < b /\ b <= files[k].frame.T
     /\ LET f == files[k].frame
-           g == [f EXCEPT !.T = b - a, !.tsoff = 0, !.data = [i \in 1..b - a |-> f.data[a + i]]] IN
+           g == [f EXCEPT !.T = b - a, !.tsoff = 0, !.tsgap = 0, !.data = [i \in 1..b - a |-> f.data[a + i]]] IN
        objs' = Append(objs, g @@ [wf |-> TRUE])
     /\ last' = [st |-> "ok"] /\ UNCHANGED files
     /\ Log([name |-> "LoadT", file |-> k, a |-> a, b |-> b], [st |-> "ok"])
@@ -170,8 +176,10 @@ Done == /\ EmitOn /\ Len(hist) = MaxOps
         /\ UNCHANGED <<objs, files, last, ncreate>>
 
 Os == 1..MaxObjs
-CreateArgs == IF All THEN {3, 4, 6} \X {2, 3} \X BOOLEAN \X {0, 2} \X {"sizes", "data"} ELSE {4} \X {3} \X BOOLEAN \X {1} \X {"sizes"}
-SliceArgs == IF All THEN (0..5) \X (1..6) ELSE {<<1, 4>>}
+CreateArgs == IF All THEN {3, 4, 6} \X {2, 3} \X BOOLEAN \X {0, 2} \X {"sizes", "data"}
+              ELSE IF Der THEN {6} \X {3} \X BOOLEAN \X {1} \X {"sizes"} ELSE {4} \X {3} \X BOOLEAN \X {1} \X {"sizes"}
+SliceArgs == IF All THEN (0..5) \X (1..6) ELSE IF Der THEN {<<1, 5>>} ELSE {<<1, 4>>}
+DriftArgs == IF Der THEN {-3, 2, 5} ELSE {-6, -4, -3, -1, 0, 2, 3, 5, 9}
 LoadTArgs == IF All THEN (1..2) \X (0..1) \X (1..3) ELSE {<<1, 1, 3>>}
 Next == \/ Done
         \/ \E x \in CreateArgs : Create(x[1], x[2], x[3], x[4], x[5])
@@ -179,10 +187,10 @@ Next == \/ Done
         \/ \E o \in Os : CopyOp(o)
         \/ \E o \in Os : PickleOp(o)
         \/ \E o \in Os : Mutate(o)
-        \/ \E o \in Os : ShiftTs(o)
+        \/ \E o \in Os, kind \in {"shift", "gap"} : ShiftTs(o, kind)
         \/ \E o \in Os : Rebind(o)
         \/ \E o \in Os, x \in SliceArgs : Slice(o, x[1], x[2])
-        \/ \E o \in Os, q \in {-6, -4, -3, -1, 0, 2, 3, 5, 9} : Dedrift(o, q)
+        \/ \E o \in Os, q \in DriftArgs : Dedrift(o, q)
         \/ \E o \in Os, axis \in {"t", "f"} : Integrate(o, axis)
         \/ \E o \in Os, fmt \in {"fil", "h5"} : Save(o, fmt)
         \/ \E k \in 1..2 : Load(k)
